@@ -60,7 +60,8 @@ func runC09Hold(cfg *common.Config, rec *common.Recorder) {
 		scen := holdScenarios[cellNo/len(holdActions)]
 		act := holdActions[cellNo%len(holdActions)]
 		seed := common.CaseSeed(cfg.Seed, cfg.Prop+"/"+cfg.Mode, i)
-		rec.Case(i, fmt.Sprintf("hold/%s/%s rep=%d", scen, actionNames[act], i/G))
+		kind := ctxKind((i/G + cfg.Seed) % uint64(nCtxKinds)) // Context kind of the script (the cancelled operation derives its own from it)
+		rec.Case(i, fmt.Sprintf("hold/%s/%s rep=%d ctx=%s", scen, actionNames[act], i/G, kind))
 		var b *bench
 		var bmu sync.Mutex
 		get := func() *bench {
@@ -76,8 +77,9 @@ func runC09Hold(cfg *common.Config, rec *common.Recorder) {
 			bmu.Lock()
 			b = nb
 			bmu.Unlock()
-			runHoldCase(nb, scen, act)
+			runHoldCase(nb, scen, act, kind)
 		})
+		rec.Count("runs_ctx_"+kind.String(), 1)
 		if i < G {
 			rec.Count("grid_cells_run_hold", 1)
 		}
@@ -91,10 +93,10 @@ func runC09Hold(cfg *common.Config, rec *common.Recorder) {
 	rec.Finish()
 }
 
-func runHoldCase(b *bench, scen string, act closeAction) {
+func runHoldCase(b *bench, scen string, act closeAction, kind ctxKind) {
 	p := b.peer
 	pl := b.lk.(*pipeLink)
-	sc := newSctx(b)
+	sc := newSctxKind(b, kind)
 	cctx, cancel := context.WithCancel(sc.ctx)
 	defer cancel()
 	var bc *capnp.Client
